@@ -18,6 +18,8 @@ langs = a[6].split(',') if len(a) > 6 else pipeline.LANGS
 cfgs = [Config(l, sw, a[2]) for l in langs]
 pols = [('prng', c) for c in range(1, npol + 1)]
 kw = getattr(mod, 'RUN_KW', {})
+if a[1] == 'c03':
+    kw = {'stages': ('gen', 'erase'), 'n_erasures': 1}
 tot = explore.explore(cfgs, pols, int(a[3]), mod.SPEC, {}, 16, 0, 16, run_kw=kw)
 print('execs', tot.execs, 'errors', tot.errors[:2])
 seen = {}
